@@ -99,11 +99,11 @@ bodies only (`/verif/benign/<id>/`: header parsing with `encoding/binary`, if-ch
 helpers, merged or split loops, restructured LRU `Put`/`Get`, replay-window and fragment-bitmap arithmetic rewritten,
 `writeFlight` scan extracted, cookie loop un-nested, PRF and key-block slicing rewritten, …), each passing the
 repository's suite.  `tools/bencheck.sh` ran the quick checks of the properties anchored in the touched files
-against each of them: 36 check runs, 34 exit 0, no VIOLATION line anywhere.  The two runs that did not exit 0 were
-the C04 check reporting an inconclusive solver answer in `C04_header_authenticated` while three heavy jobs shared
-the machine — unrelated to the refactoring (one of the two patches does not touch record code); that harness was
-made about five times cheaper afterwards and unknown answers are now asked a second time with a longer timeout
-(section 12).
+against each of them: 31 check runs, no VIOLATION line anywhere, 29 exit 0 (`benign/bencheck-run1.log`).  The two
+runs that did not exit 0 were the C04 check reporting an inconclusive solver answer in `C04_header_authenticated`
+while three heavy jobs shared the machine — unrelated to the refactoring (one of the two patches does not touch
+record code); that harness was made about five times cheaper afterwards, unknown answers are now asked a second
+time with a longer timeout (section 12), and both runs were repeated: exit 0 (`benign/bencheck-run2.log`).
 
 '''
 d = d[:start] + intro.replace('SUMMARY', summary).replace('TABLE', '\n'.join(tab)) + d[end:]
